@@ -4,7 +4,9 @@
 `yowsup.axolotl.store.sqlite.liteaxolotlstore` to a shim whose `connect()`
 returns a `sqlite3.Connection` subclass (handing out a `sqlite3.Cursor`
 subclass).  Both call a boundary callback *before* and *after* every
-`execute` / `executemany` / `executescript` / `commit` / `rollback`.  Nothing
+`execute` / `executemany` / `executescript` (on the cursor and on the
+connection - CPython >= 3.11 runs `Connection.execute` on a private C cursor)
+and the connection's `commit` / `rollback`; one pair per statement.  Nothing
 else about sqlite is changed: statements, transaction control and the files on
 disk are those of the real library.
 
